@@ -1120,6 +1120,87 @@ func (sm *vpC29Machine) opRoundTrip(t *rapid.T) {
 	}
 }
 
+// initFromWire starts the history from a header PARSED from generated wire text in which the
+// specially handled fields sit between the ordinary ones (a state the setters never produce:
+// e.g. a request's Cookie line is stored among the ordinary fields until cookies are first used).
+func (sm *vpC29Machine) initFromWire(t *rapid.T) {
+	h, m := sm.h, sm.m
+	type line struct {
+		k, v    string
+		special bool
+	}
+	var lines []line
+	insert := func(l line) {
+		pos := rapid.IntRange(0, len(lines)).Draw(t, "pos")
+		lines = append(lines, line{})
+		copy(lines[pos+1:], lines[pos:])
+		lines[pos] = l
+	}
+	n := rapid.IntRange(0, 6).Draw(t, "nfields")
+	for i := 0; i < n; i++ {
+		name := rapid.SampledFrom(vpC29HotNames).Draw(t, "wname")
+		v := rapid.SampledFrom([]string{"1", "2", "3", "a b", "x,y", ""}).Draw(t, "wval")
+		lines = append(lines, line{k: name, v: v})
+	}
+	var cookies []vpC29KV
+	if m.isReq {
+		insert(line{"Host", "wire.host", true})
+		m.applySpecial("host", "wire.host")
+		if rapid.Bool().Draw(t, "wua") {
+			insert(line{"User-Agent", "wire-ua", true})
+			m.applySpecial("user-agent", "wire-ua")
+		}
+		if rapid.IntRange(0, 3).Draw(t, "wcookie") > 0 {
+			cookies = []vpC29KV{{"ca", "w1"}, {"cb", "w2"}}
+			insert(line{"Cookie", "ca=w1; cb=w2", true})
+		}
+	} else {
+		if rapid.Bool().Draw(t, "wserver") {
+			insert(line{"Server", "wire-srv", true})
+			m.applySpecial("server", "wire-srv")
+		}
+		insert(line{"Content-Length", "5", true})
+		for i, nc := 0, rapid.IntRange(0, 2).Draw(t, "wsetcookies"); i < nc; i++ {
+			v := vpC29CookieNames[i] + "=w" + fmt.Sprint(i) + "; Path=/"
+			cookies = append(cookies, vpC29KV{vpC29CookieNames[i], v})
+			lines = append(lines, line{"Set-Cookie", v, true}) // appended: keeps their relative order
+		}
+	}
+	if rapid.Bool().Draw(t, "wct") {
+		insert(line{"Content-Type", "wire/type", true})
+		m.applySpecial("content-type", "wire/type")
+	}
+	if rapid.IntRange(0, 3).Draw(t, "wtrailer") == 0 {
+		insert(line{"Trailer", "X-T", true})
+		m.setTrailer("X-T")
+	}
+	var sb strings.Builder
+	if m.isReq {
+		sb.WriteString("GET /vp HTTP/1.1\r\n")
+	} else {
+		sb.WriteString("HTTP/1.1 200 OK\r\n")
+	}
+	for _, l := range lines {
+		sb.WriteString(l.k + ": " + l.v + "\r\n")
+		if !l.special {
+			m.generic = append(m.generic, vpC29KV{m.key(l.k), l.v})
+		}
+	}
+	sb.WriteString("\r\n")
+	wire := sb.String()
+	sm.note("ReadWire(%q)", wire)
+	if err := h.Read(bufio.NewReader(strings.NewReader(wire))); err != nil {
+		t.Fatalf("Read(%q) failed: %v", wire, err)
+	}
+	m.cookies = cookies
+	m.slots["content-length"].known = false
+	m.slots["connection"].known = false
+	if s := m.slots["content-type"]; s.v == "" {
+		s.known = false
+	}
+	vpExtra("started-from-parsed-wire", 1)
+}
+
 // invariant: layer 2 (reference model) + observers are pure.
 func (sm *vpC29Machine) invariant(t *rapid.T) {
 	h, m := sm.h, sm.m
@@ -1288,7 +1369,11 @@ func vpC29Run(t *rapid.T, isReq bool) {
 		sm.h.DisableNormalizing()
 	}
 	sm.h.SetNoDefaultContentType(noDefCT)
+	if rapid.IntRange(0, 2).Draw(t, "startFromWire") == 0 {
+		sm.initFromWire(t)
+	}
 	sm.prev = vpC29Snapshot(sm.h)
+	sm.invariant(t)
 
 	t.Repeat(map[string]func(*rapid.T){
 		"Add":       func(t *rapid.T) { sm.opSetAdd(t, false) },
